@@ -134,7 +134,7 @@ def run(tier, seed):
             ck.notes.append("known finding %s no longer reproduces statically (function not declared iosafe or no path to a sink)" % k["id"])
 
     # ---------------- 2. dynamic enumeration on the real runtime
-    gvh, berr = ck.build_gvh(pkg="./cmd/gvh-flags", name="gvh_flags")
+    gvh, berr = ck.build_gvh(pkg="./cmd/gvh-flags", name="gvh_flags", overlay=os.environ.get("VERIF_OVERLAY"))
     if gvh is None:
         ck.violation("harness does not build against /repo", {"kind": "build", "stderr": berr[-3000:]}, no_input=True)
         return ck.finish("n/a", TRUSTED, [])
@@ -395,7 +395,7 @@ def run(tier, seed):
 def replay(path, seed):
     r = json.load(open(path))
     ck = vlib.Check("C08", "quick", seed)
-    gvh, _ = ck.build_gvh(pkg="./cmd/gvh-flags", name="gvh_flags")
+    gvh, _ = ck.build_gvh(pkg="./cmd/gvh-flags", name="gvh_flags", overlay=os.environ.get("VERIF_OVERLAY"))
     if "lua" in r:
         line = "r " + r["lua"].encode().hex()
         if r.get("form") == "goapi":
